@@ -21,7 +21,7 @@ def shrink(lines, still_fails, budget=400):
         reduced = False
         for i in range(0, len(cur), chunk):
             # thread set-up and collector steps stay: removing them changes which calls would block on the registry lock
-            keep = [l for l in cur[i:i + chunk] if l.split()[1] in ("spawn", "touch", "setReporter", "cycBegin", "cycStep")]
+            keep = [l for l in cur[i:i + chunk] if l.split()[1] in ("spawn", "touch", "setReporter", "cycBegin", "cycStep", "bgBegin", "bgAfter", "bgEnd")]
             if len(keep) == len(cur[i:i + chunk]):
                 continue
             cand = cur[:i] + keep + cur[i + chunk:]
